@@ -52,6 +52,26 @@ def rneShr (x k : Nat) : Nat :=
   let h := 2 ^ k
   if 2 * r < h then q else if 2 * r > h then q + 1 else if q % 2 = 0 then q else q + 1
 
+/-- ⌊log2 q⌋ for a positive rational -/
+def floorLog2 (q : Rat) : Int :=
+  let n := q.num.natAbs
+  let d := q.den
+  let e : Int := (n.log2 : Int) - (d.log2 : Int)
+  -- 2^e ≤ q < 2^(e+1) up to one step: adjust
+  if pow2 e > q then e - 1 else if pow2 (e + 1) ≤ q then e + 1 else e
+
+/-- round-half-even of a rational to `p` significant bits (0 stays 0; unbounded exponent) -/
+def rndSig (p : Nat) (x : Rat) : Rat :=
+  if x = 0 then 0 else
+  let a := if x < 0 then -x else x
+  let e := floorLog2 a
+  let ulp := pow2 (e - (p : Int) + 1)
+  let r := (rne (a / ulp) : Rat) * ulp
+  if x < 0 then -r else r
+
+/-- round-half-even to a multiple of 2^k -/
+def rndAbs (k : Int) (x : Rat) : Rat := (rne (x / pow2 k) : Rat) * pow2 k
+
 /-! ### text helpers for the line protocol -/
 
 def hexDigitVal (c : Char) : Option Nat :=
